@@ -43,16 +43,21 @@ func init() {
 			"(E4) NULL in, NULL out: for every child field X of such a type whose evaluated value is tested for nil in Eval with the nil edge leading to a return of the literal (nil, nil) - the path " +
 			"from the entry crosses only receiver-field tests, `err == nil` edges and the non-nil edges of other children's values - IsNullable folded under the assumption X.IsNullable() == true " +
 			"(and the path's field configuration) must return true on every path: a nullable argument makes the result nullable. IsNullable implementations that reach children through a collection " +
-			"(for _, ch := range e.Children()) are not related to one child: not decided.",
-		NotCovered: "values outside the reported type, NULLs that flow out of child expressions or interface calls (run-time values), nullability of unions and outer joins; for computed IsNullable only the structurally NULL configurations of E3 are decided: NULLs that depend on evaluated values (NULL in -> NULL out, invalid input -> NULL) are not related to IsNullable, " +
+			"(for _, ch := range e.Children()) are not related to one child: not decided. " +
+			"(V1) value in the announced type, number types: the Go kind of a number type's values is READ from NumberTypeImpl_.Zero (base-type constant -> kind of the returned T(0)); ValueType (reflect.TypeOf(T(0)) through its package variables) " +
+			"and every statically numeric return of Convert's base-type arms give the same kind; every integer/float arm of types.ApproximateTypeFromValue (the type recorded for user variables, SELECT INTO, LOAD DATA @v, SET literals) returns " +
+			"the number type - resolved through the package variable's constructor chain to its base-type constant, never by name - whose value kind is the arm's Go kind (int/uint sized for the target, constant conditions such as strconv.IntSize == 32 folded), " +
+			"and every value kind of the table has an arm; every call expression.NewLiteral(v, T) in the loaded module whose v is a non-constant of a static Go numeric kind and whose T is one of those number types pairs the same kinds, a constant v lies in the value range of T's kind.",
+		NotCovered: "values outside the reported type other than the number-type tables of V1 (bool -> TINYINT(1), strings, decimals, times; literals built with run-time types or interface-typed values; the Go kind of constant literals, e.g. NewLiteral(0, Uint64) is an int), NULLs that flow out of child expressions or interface calls (run-time values), nullability of unions and outer joins; for computed IsNullable only the structurally NULL configurations of E3 are decided: NULLs that depend on evaluated values (NULL in -> NULL out, invalid input -> NULL) are not related to IsNullable, " +
 			"returns of (nil, nil) behind any data-dependent branch or inside helpers of Eval are not read, and a configuration that constructors rule out (arity checks) is not recognised as unreachable",
-		Technique: "sibling agreement over all implementations of an interface: constant folding of IsNullable + SSA return-shape analysis of Eval with helper summaries",
+		Technique: "sibling agreement over all implementations of an interface: constant folding of IsNullable + SSA return-shape analysis of Eval with helper summaries; table agreement (switch arms read with go/types, go/constant) for value kinds",
 		Run: func(c *Ctx) {
 			rels := []string{}
 			for _, pk := range c.P.Module {
 				rels = append(rels, strings.TrimPrefix(strings.TrimPrefix(pk.PkgPath, modPath), "/"))
 			}
 			runC09(c, c09Config{Rels: rels, IfaceRel: "sql", Iface: "Expression", NullableM: "IsNullable", EvalM: "Eval", AggIface: "Aggregation", NewBufferM: "NewBuffer", Floor: 44, FloorConst: 330, FloorAgg: 5, FloorField: 3, FloorProp: 75})
+			runC09ValueKinds(c, c09VKRepo)
 		},
 		Fixture: func(c *Ctx, fx *Prog) {
 			expectFixture(c, fx, "c09: direct nil,nil; nil through phi; nil through helper",
@@ -63,8 +68,14 @@ func init() {
 				func(fc *Ctx) {
 					runC09(fc, c09Config{Rels: []string{"testdata/c09/expr"}, IfaceRel: "testdata/c09/expr", Iface: "Expression", NullableM: "IsNullable", EvalM: "Eval", AggIface: "Aggregation", NewBufferM: "NewBuffer"})
 				})
+			expectFixture(c, fx, "c09 value kinds: ValueType, Convert arm, Approx arm + missing arm, literal kind, constant literal out of range",
+				[]string{"C09-V1:Num.ValueType/U8", "C09-V1:Num.Convert/I32", "C09-V1:Approx/case uint32", "C09-V1:Approx/arm for uint8",
+					"C09-V1:build/NewLiteral(uint32, Int32)", "C09-V1:build/NewLiteral(const 300, Uint8)"},
+				func(fc *Ctx) {
+					runC09ValueKinds(fc, c09VKConfig{TypesRel: "testdata/c09/vk", NumType: "Num", BaseField: "baseType", ZeroM: "Zero", ValueTypeM: "ValueType", ConvertM: "Convert", ApproxFn: "Approx", LitRel: "testdata/c09/vk", LitFn: "NewLiteral"})
+				})
 		},
-		FixturePkgs: []string{"./testdata/c09/expr"},
+		FixturePkgs: []string{"./testdata/c09/expr", "./testdata/c09/vk"},
 	})
 }
 
